@@ -412,6 +412,63 @@ pub fn c09_strategy() -> BoxedStrategy<ConcCase> {
         .boxed()
 }
 
+/// Sustained load with the background thread held inside a table compaction (or between its
+/// steps) so that memtable rotations and flushes happen while a compaction is in flight.
+pub fn c09_forced_strategy() -> BoxedStrategy<ConcCase> {
+    let bg = (
+        select(vec!["compaction.step", "compaction.step", "manifest.before_append", "flush.before_build", "gc.before_delete"]),
+        0u32..6,
+        10u32..60,
+    )
+        .prop_map(|(p, nth, max_hold_ms)| Directive { role: -1, point: p.to_string(), nth, max_hold_ms });
+    let random = (c09_strategy(), prop::collection::vec(bg, 1..4)).prop_map(|(mut c, d)| {
+        c.directives = d;
+        c
+    });
+    // Structured: one client builds a layout out of small flushes over key groups (files that are
+    // pushed down to levels 1 and 2 and leave gaps between them) and then compacts everything; a
+    // second client, delayed at its first read, fills the memtable while the background thread is
+    // held inside that compaction.
+    let group = prop::collection::vec(0u8..6, 1..4);
+    let writer = prop_oneof![
+        8 => (0u8..6, 150u16..300).prop_map(|(k, l)| COp::Put(k, l)),
+        1 => (0u8..6).prop_map(COp::Get),
+        1 => Just(COp::Scan),
+    ];
+    let structured = (
+        (select(vec![512usize, 700]), select(vec![400u64, 1024 * 1024]), select(vec![128usize, 4096]), any::<bool>())
+            .prop_map(|(memtable, file, block, reuse)| Cfg { memtable, file, block, reuse }),
+        prop::collection::vec(group, 2..7),
+        prop::collection::vec(writer, 3..12),
+        0u32..3,
+        (5u32..40, 30u32..90),
+    )
+        .prop_map(|(cfg, groups, writer, nth, (delay, hold))| {
+            let mut p0 = vec![];
+            for g in groups {
+                for k in g {
+                    p0.push(COp::Put(k, 20));
+                }
+                p0.push(COp::Flush);
+            }
+            p0.push(COp::CompactAll);
+            p0.push(COp::Scan);
+            let mut p1 = vec![COp::Get(0)];
+            p1.extend(writer);
+            ConcCase {
+                cfg,
+                nkeys: 6,
+                programs: vec![p0, p1],
+                directives: vec![
+                    Directive { role: 1, point: "get.unlocked".into(), nth: 0, max_hold_ms: delay },
+                    Directive { role: -1, point: "compaction.step".into(), nth, max_hold_ms: hold },
+                ],
+                wal_fault: None,
+            }
+        });
+    prop_oneof![3 => random, 1 => structured].boxed()
+}
+
 pub enum Outcome {
     Pass(ConcStats),
     Fail(String),
@@ -571,6 +628,7 @@ pub fn worker_c09_conc(ctx: &WorkerCtx, res: &RefCell<WorkerResult>) {
     };
     let cases = std::env::var("VERIF_CASES").ok().and_then(|s| s.parse::<u64>().ok()).map(|c| (c * cases / 8000).max(1)).unwrap_or(cases);
     campaign(ctx, "C09", c09_strategy(), cases, 91, true, res);
+    campaign(ctx, "C09", c09_forced_strategy(), cases, 92, true, res);
 }
 
 pub fn replay(v: &Value) -> Result<(), String> {
